@@ -393,6 +393,16 @@ def run_suite(pid, suite, tier, seed, workdir, log, replay=None):
                     inp = {"suite": suite, "op": op.strip()[:2000], "class": "marshal-accepts-unreadable"}
                     if len(r["propfails"]) < 50:
                         r["propfails"].append({"kind": "roundtrip", "desc": "Marshal accepted the value but Unmarshal(Marshal(v)) gave " + g.strip(), "input": inp})
+                if word == "restable" and g.strip() == "remarshal-failed" and l.strip() == "remarshal-failed":
+                    # Unmarshal accepted a string whose value Marshal refuses to write: nothing it could be a respelling of
+                    inp = {"suite": suite, "op": op.strip()[:2000]}
+                    for kv in ann.split():
+                        if "=" in kv:
+                            k, v = kv.split("=", 1)
+                            inp[k] = v
+                    if len(r["propfails"]) < 50:
+                        r["propfails"].append({"kind": "accepted-unwritable", "desc": "Unmarshal accepted the string, but Marshal rejects the value it returned (%s)" % inp.get("class", "?"), "input": inp})
+                    r["stats"]["propfail:accepted-unwritable"] = r["stats"].get("propfail:accepted-unwritable", 0) + 1
                 if word == "b64decs" and " nil" in g and "corrupt" in l and g != l:
                     inp = {"suite": suite, "op": op.strip()[:2000]}
                     if len(r["propfails"]) < 50:
@@ -469,6 +479,8 @@ def is_known(pid, fail, known):
 def write_evidence(pid, ev):
     # evidence/ describes runs against /repo itself; a run against another checkout (VERIF_REPO) keeps its own
     evdir = os.path.join(ROOT, "evidence") if os.path.abspath(REPO) == "/repo" else os.path.join(RUN, "alt-evidence")
+    if os.environ.get("VERIF_EVIDENCE_DIR"):
+        evdir = os.environ["VERIF_EVIDENCE_DIR"]      # runs against a deliberately changed tree (seeded changes) keep theirs apart
     os.makedirs(evdir, exist_ok=True)
     with open(os.path.join(evdir, pid + ".json"), "w") as f:
         json.dump(ev, f, indent=1, sort_keys=True)
